@@ -65,7 +65,7 @@ let () =
       let l = input_line stdin in
       if l = "R" then begin w := []; print_string "R\n" end
       else begin
-        let (w', out) = step_top !w (parse_line l) in
+        let (w', out) = step_top2 !w (parse_line l) in
         w := w';
         print_result out
       end
